@@ -6,9 +6,12 @@ From PW.model Require Import M_plane M_polyline_base M_polyline_slice.
 Import ListNotations.
 Local Open Scope Q_scope.
 
+(* an observed result polyline: rows of .v and the is_closed flag *)
+Record oslice := OSlice { o_rows : list (list fl); o_closed : bool }.
+
 Inductive case :=
 (* Polyline(vs, is_closed=closed).sliced_by_plane(Plane(ref, normal)): rows of the returned open polyline, or the exception *)
-| CSlice (exact closed : bool) (pl : plane Q) (vs : list (vec3 Q)) (o : result (list (list fl)))
+| CSlice (exact closed : bool) (pl : plane Q) (vs : list (vec3 Q)) (o : result oslice)
 (* intersect_segment_with_plane(start, seg, ref, normal) for one segment: the returned row *)
 | CXsect (start seg ref n : vec3 Q) (o : list fl).
 
@@ -28,9 +31,9 @@ Definition row_close (m : Q) (r : xrow Q) (o : list fl) : bool :=
 (* what holds of every outcome whatever the signs: only ValueError is raised, every returned row is finite and
    there is at least one (C06_result_finite_not_behind, C06_only_value_error on the model) *)
 Definition fl_finite (o : fl) : bool := match o with Fin _ => true | _ => false end.
-Definition sane (o : result (list (list fl))) : bool :=
+Definition sane (o : result oslice) : bool :=
   match o with
-  | Ok rows => forallb (fun r => forallb fl_finite r && Nat.eqb (length r) 3) rows && negb (Nat.eqb (length rows) 0)
+  | Ok ob => let rows := o_rows ob in negb (o_closed ob) && forallb (fun r => forallb fl_finite r && Nat.eqb (length r) 3) rows && negb (Nat.eqb (length rows) 0)
   | Raise e => exn_eqb e ValueError
   end.
 
@@ -39,7 +42,8 @@ Definition check_case (c : case) : bool :=
   | CSlice exact closed pl vs o =>
       let m := mag_of vs (Qmax' 1 (vmag (pref pl))) in
       if forallb (fun v => decided exact m (plane_sd QOps pl v)) vs
-      then res_agree (all2 (row_close m)) (sliced_by_plane QOps pl (MkPolyline vs closed)) o
+      then res_agree (fun r ob => all2 (row_close m) (s_rows r) (o_rows ob) && Bool.eqb (s_closed r) (o_closed ob))
+                     (sliced_polyline QOps pl (MkPolyline vs closed)) o
       else sane o   (* some side is within rounding: only what does not depend on the classification *)
   | CXsect start seg ref n o =>
       let m := mag_of [start; seg; ref] 1 in
